@@ -569,12 +569,16 @@ Proof.
   { apply outok_quiet; try (apply set_next_num_in_pres; ins_solve). apply set_next_num_in_allev. }
   assert (Hnm : mono (set_next_num_in m)) by (apply mono_pres, set_next_num_in_pres; ins_solve).
   assert (Hpm : mono (persist_in m)) by (apply mono_pres, persist_in_pres; ins_solve).
+  assert (Hc : outok (try_ (set_next_num_in m;;; persist_in m);;; ret tt)).
+  { ok_step; [apply outok_try; ok_step; [apply Hn|apply persist_in_outok|apply Hpm]|apply outok_ret|apply mono_ret]. }
+  assert (Hcm : mono (try_ (set_next_num_in m;;; persist_in m);;; ret tt)).
+  { mono_step; [apply mono_try; mono_step; [apply Hnm|apply Hpm]|apply mono_ret]. }
   unfold logout_counted. ok_step; [apply outok_lift| |].
   - ok_step; [apply outok_getw| |].
     + ok_step; [|apply process_logout_outok|apply process_logout_mono].
-      destruct (_ =? _); [|apply outok_ret]. ok_step; [apply Hn|apply persist_in_outok|apply Hpm].
-    + mono_step; [destruct (_ =? _); [mono_step; [apply Hnm|apply Hpm]|apply mono_ret]|apply process_logout_mono].
-  - mono_step; [mono_tac|]. mono_step; [destruct (_ =? _); [mono_step; [apply Hnm|apply Hpm]|apply mono_ret]|apply process_logout_mono].
+      destruct (_ =? _); [apply Hc|apply outok_ret].
+    + mono_step; [destruct (_ =? _); [apply Hcm|apply mono_ret]|apply process_logout_mono].
+  - mono_step; [mono_tac|]. mono_step; [destruct (_ =? _); [apply Hcm|apply mono_ret]|apply process_logout_mono].
 Qed.
 
 Lemma logout_counted_mono c m : mono (logout_counted c m).
